@@ -95,7 +95,7 @@ MsgsC05 == [
   disconnect |-> Obj("disconnect", "frame", <<>>, "same", TRUE),
   addr       |-> Obj("addr", "frame", << <<AddrE(1), AddrE(2)>> >>, "same", TRUE),
   addr_0     |-> Obj("addr", "frame", << <<>> >>, "same", TRUE),
-  addr_64    |-> Obj("addr", "frame", << [i \in 1..64 |-> AddrE(i)] >>, "same", FALSE),
+  addr_64    |-> Obj("addr", "frame", << [i \in 1..(IF Tier = "quick" THEN 3 ELSE 64) |-> AddrE(i)] >>, "same", FALSE),
   addr_65    |-> Obj("addr", "frame", << [i \in 1..65 |-> AddrE(i)] >>, "free", FALSE),       \* clamped to MAX_ADDR_NODE_CNT
   getheaders |-> Obj("getheaders", "frame", << <<5>>, Rnd(32, "hs"), Lit(32, 0) >>, "same", TRUE),
   getblocks  |-> Obj("getblocks", "frame", << <<255>>, Rnd(32, "hs"), Rnd(32, "he") >>, "same", TRUE),
@@ -103,7 +103,7 @@ MsgsC05 == [
                                               HdrV(Rnd(32, "txroot"), U32(2), Lit(3, 1), <<"p1", "e1">>, <<Sg(1), Sg(2)>>) >> >>, "same", TRUE),
   headers_0  |-> Obj("headers", "frame", << <<>> >>, "same", FALSE),
   inv        |-> Obj("inv", "frame", << <<2>>, <<HashE(1), HashE(2)>> >>, "same", TRUE),
-  inv_64     |-> Obj("inv", "frame", << <<1>>, [i \in 1..64 |-> HashE(i)] >>, "same", FALSE),
+  inv_64     |-> Obj("inv", "frame", << <<1>>, [i \in 1..(IF Tier = "quick" THEN 3 ELSE 64) |-> HashE(i)] >>, "same", FALSE),
   inv_65     |-> Obj("inv", "frame", << <<1>>, [i \in 1..65 |-> HashE(i)] >>, "free", FALSE),   \* clamped to MAX_INV_BLK_CNT
   getdata    |-> Obj("getdata", "frame", << <<2>>, Rnd(32, "hs") >>, "same", TRUE),
   blockmsg   |-> Obj("blockmsg", "frame", << BlkV("ab", <<"p1", "p2">>, <<Sg(1), Sg(2)>>, <<TxA(<<S2>>), TxB(<<S3>>)>>), Rnd(32, "mr") >>, "same", TRUE),
@@ -166,12 +166,14 @@ Mutants(sc, v, withRoot) ==
              ELSE {})
 
 (* ---- C05: frames ---------------------------------------------------------------------- *)
-BytePositions(L) == IF L <= 24 + 260 \/ (Tier # "quick" /\ L <= 24 + 700) THEN 0..(L - 1)
-                    ELSE {p \in 0..(L - 1) : p < 24 + 96 \/ p >= L - 24 \/ p % 29 = 0}
+(* corrupted positions: the whole 24-byte header and the whole payload; in the quick tier long payloads are sampled *)
+BytePositions(L) == IF Tier # "quick" \/ L <= 24 + 40 THEN 0..(L - 1)
+                    ELSE {p \in 0..(L - 1) : p < 24 + 12 \/ p >= L - 6 \/ p % (1 + (L \div 24)) = 0}
 MagicAlts == << <<67, 68, 78, 0>>, <<66, 68, 78, 1>>, <<0, 0, 0, 0>>, <<0, 78, 68, 66>> >>
 LenAlts(n) == << U32(0), U32(IF n > 0 THEN n - 1 ELSE 1), U32(n + 1), U32(MaxPayload + 1), F4(255), U32(n + 16777216) >>
 CmdAlts == << <<102, 111, 111>>, [i \in 1..12 |-> 97], <<>>, <<112, 105, 110, 103, 0, 120>>, CmdBytes["ping"], CmdBytes["pong"], CmdBytes["getaddr"],
               CmdBytes["notfound"], CmdBytes["txmsg"], CmdBytes["addr"], CmdBytes["inv"], CmdBytes["verack"] >>
+CmdAltNames == <<"foo", "aaaaaaaaaaaa", "empty", "ping-nul-x", "ping", "pong", "getaddr", "notfound", "tx", "addr", "inv", "verack">>
 FrameCuts(L) == {c \in {0, 1, 3, 4, 5, 15, 16, 19, 20, 23, 24, 25, (24 + L) \div 2, L - 2, L - 1} : c >= 0 /\ c < L}
 Junk == << Lit(24, 0), Lit(24, 255), FromBytes(Magic) \o Lit(20, 0), FromBytes(Magic) \o Lit(40, 255),
            FromBytes(Magic \o Pad(CmdBytes["ping"], 12) \o U32(8)) \o Lit(12, 0), Lit(3, 66), <<>>,
@@ -181,21 +183,24 @@ FlipBit(b, p) == LET m == 2 ^ (p % 8) IN IF (b \div m) % 2 = 1 THEN b - m ELSE b
 ByteMut(f, p, k) == LET b == ByteAt(f, p) IN
                     IF b < 0 THEN 0                                   \* token byte: the model only needs "some other byte"
                     ELSE IF k = 1 THEN FlipBit(b, p) ELSE IF k = 2 THEN 0 ELSE 255
-RowK(o, op, i, a, kd, an, s, refp, must) == [o |-> o, op |-> op, i |-> i, a |-> a, kd |-> kd, an |-> an, s |-> s, refp |-> refp, must |-> must]
+NoEx == D(<<>>, 0, "", <<>>)
+RowK(o, op, i, a, kd, an, s, refp, must) ==
+    [o |-> o, op |-> op, i |-> i, a |-> a, kd |-> kd, an |-> an, s |-> s, refp |-> refp, must |-> must, ex |-> NoEx]
 Row(o, op, i, a, s, refp, must) == RowK(o, op, i, a, "", "", s, refp, must)
 
 (* C05 rows of a message object: the stream, the payload the checksum token stands for, the monitor *)
 FrameRows(o) ==
     LET ob == Objs[o]  pl == Enc(ob.sc, ob.v)  f == WriteFrame(ob.sc, pl)  n == BLen(pl)  L == BLen(f)
         cmd == Pad(CmdBytes[ob.sc], 12) IN
-    {Row(o, "valid", 0, 0, f, pl, ob.must), Row(o, "trail", 0, 0, Norm(f \o Lit(30, 255)), pl, ob.must)}
+    {Row(o, "valid", 0, 0, f, pl, ob.must)}
+    \cup (IF ob.mut \/ Tier # "quick" THEN {Row(o, "trail", 0, 0, Norm(f \o Lit(30, 255)), pl, ob.must)} ELSE {})
     \cup (IF ob.mut THEN
             {LET g == SetByte(f, p, ByteMut(f, p, k)) IN Row(o, "byte", p, k, g, pl, IF g = f THEN ob.must ELSE "reject") :
                  p \in BytePositions(L), k \in 1..3}
             \cup {Row(o, "magic", 0, a, Norm(FrameHdr(MagicAlts[a], cmd, U32(n)) \o pl), pl, "reject") : a \in 1..Len(MagicAlts)}
             \cup {Row(o, "length", 0, a, Norm(FrameHdr(Magic, cmd, LenAlts(n)[a]) \o pl), pl,
                       IF LenAlts(n)[a] = U32(n) THEN ob.must ELSE "reject") : a \in 1..6}
-            \cup {Row(o, "cmd", 0, a, Norm(FrameHdr(Magic, Pad(CmdAlts[a], 12), U32(n)) \o pl), pl,
+            \cup {RowK(o, "cmd", 0, a, "cmd", CmdAltNames[a], Norm(FrameHdr(Magic, Pad(CmdAlts[a], 12), U32(n)) \o pl), pl,
                       IF CmdAlts[a] = CmdBytes[ob.sc] THEN ob.must
                       ELSE IF \E m \in MsgNames : CmdBytes[m] = TrimRight0(Pad(CmdAlts[a], 12)) THEN "free" ELSE "reject") : a \in 1..Len(CmdAlts)}
             \cup {Row(o, "fcut", c, 0, Take(f, c), pl, "reject") : c \in FrameCuts(L)}
@@ -239,17 +244,17 @@ Sat(r, ex) ==
     ELSE ex.e # PANIC
 (* the repaired design satisfies the monitor on every row; the code as it is does so except where a named
    deviation (AllocPanic, SlicePanic) predicts a panic - those rows are what the driver is expected to confirm *)
-PropWire == sel.op = "first" \/ (Sat(sel, PredictRepaired(sel)) /\ (Sat(sel, PredictAsIs(sel)) \/ PredictAsIs(sel).e = PANIC))
+PropWire == ~done \/ (Sat(sel, PredictRepaired(sel)) /\ (sel.ex.e = PANIC \/ Sat(sel, sel.ex)))
 PropC02 == Area = "C02" => PropWire
 PropC05 == Area = "C05" => PropWire
 
 (* signature independence, stated directly: equal unsigned fields => equal identity, whatever the signature lists *)
+SigObjs == {o \in ObjIds : Objs[o].sc \in {"tx", "header"}}
+SigIds  == [o \in SigObjs |-> PredictAsIs(Row(o, "valid", 0, 0, Enc(Objs[o].sc, Objs[o].v), <<>>, "same")).h]
 SigIndependent ==
-    \A x, y \in {o \in ObjIds : Objs[o].sc \in {"tx", "header"}} :
+    \A x, y \in SigObjs :
         LET n == IF Objs[x].sc = "tx" THEN TxUnsignedN ELSE HeaderUnsignedN IN
-        (Objs[x].sc = Objs[y].sc /\ SubSeq(Objs[x].v, 1, n) = SubSeq(Objs[y].v, 1, n))
-            => Dec(Objs[x].entry, Enc(Objs[x].sc, Objs[x].v)).h = Dec(Objs[y].entry, Enc(Objs[y].sc, Objs[y].v)).h
-
+        (Objs[x].sc = Objs[y].sc /\ SubSeq(Objs[x].v, 1, n) = SubSeq(Objs[y].v, 1, n)) => SigIds[x] = SigIds[y]
 ASSUME SigIndependent
 
 (* ---- JSON ------------------------------------------------------------------------------------ *)
@@ -260,8 +265,8 @@ JField(f, v) == IF f.t \in {"raw", "optraw", "vb", "optstr"} THEN J(v)
                 ELSE v
 JVal(sc, v) == [i \in 1..Len(Schema[sc]) |-> JField(Schema[sc][i], v[i])]
 JUni == [a \in UniLetters |-> J(TxUnsigned(UniTx[a]))]
-RowOut ==
-    LET ex == PredictAsIs(sel)  ob == Objs[sel.o] IN
+RowOut(ex) ==
+    LET ob == Objs[sel.o] IN
     [area |-> Area, o |-> sel.o, op |-> sel.op, i |-> sel.i, a |-> sel.a, kd |-> sel.kd, an |-> sel.an, sc |-> ob.sc, entry |-> ob.entry, must |-> sel.must,
      s |-> J(sel.s), refp |-> J(sel.refp),
      val |-> IF sel.must = "same" THEN JVal(ob.sc, ob.v) ELSE <<>>,
@@ -273,8 +278,10 @@ Init == sel \in {Row(o, "first", 0, 0, <<>>, <<>>, "") : o \in ObjIds} /\ done =
 Pick == /\ sel.op = "first"
         /\ sel' \in RowsOf(sel.o)
         /\ UNCHANGED done
-Decide == /\ sel.op # "first" /\ ~done /\ done' = TRUE /\ UNCHANGED sel
-          /\ (~EmitOn \/ PrintT(<<"ROW", ToJson(RowOut)>>))
+Decide == /\ sel.op # "first" /\ ~done /\ done' = TRUE
+          /\ LET ex == PredictAsIs(sel) IN
+             /\ sel' = [sel EXCEPT !.ex = ex]                  \* the prediction travels in the state: the invariant reads it
+             /\ (~EmitOn \/ PrintT(<<"ROW", ToJson(RowOut(ex))>>))
 Next == Pick \/ Decide
 Spec == Init /\ [][Next]_vars
 =============================================================================
